@@ -177,15 +177,11 @@ def sigma_filter(filename, region, step_size, box_size, shape, domask,
         if NAXIS == 2:
             data = a[0].section[data_row_min:data_row_max, 0:shape[1]]
         elif NAXIS == 3:
-            data = np.squeeze(
-                a[0].section[cube_index,
-                             data_row_min:data_row_max, 0:shape[1]]
-            )
+            data = a[0].section[cube_index,
+                                data_row_min:data_row_max, 0:shape[1]]
         elif NAXIS == 4:
-            data = np.squeeze(
-                a[0].section[0, cube_index,
-                             data_row_min:data_row_max, 0:shape[1]]
-            )
+            data = a[0].section[0, cube_index,
+                                data_row_min:data_row_max, 0:shape[1]]
         else:
             logging.error("Too many NAXIS for me {0}".format(NAXIS))
             logging.error("fix your file to be more sane")
